@@ -32,6 +32,26 @@ META = dict(
 FILE = 'loki/expression/symbolic.py'
 
 
+def stop_adjustments(fnode):
+    """[(range call, ok, facts)] for every three-argument range(a, b +/- k, s) in the function: ok iff the constant
+    adjustment of the (inclusive) bound agrees with the sign of s established by the guards (incl. early returns)."""
+    out = []
+    for call, guards in X.nodes_with_guards(fnode, lambda x: isinstance(x, ast.Call) and isinstance(x.func, ast.Name) and x.func.id == 'range',
+                                            early=True):
+        if len(call.args) != 3:
+            continue
+        stop, step = call.args[1], call.args[2]
+        const_adj = isinstance(stop, ast.BinOp) and isinstance(stop.op, (ast.Add, ast.Sub)) and isinstance(stop.right, ast.Constant)
+        step_txt = ast.unparse(step)
+        neg = any(g.replace(' ', '') in (f'{step_txt}<0', f'not({step_txt}>=0)', f'not({step_txt}>0)') for g in guards)
+        pos = any(g.replace(' ', '') in (f'{step_txt}>0', f'{step_txt}>=0', f'not({step_txt}<0)') for g in guards)
+        need = {ast.Add: 'pos', ast.Sub: 'neg'}.get(type(stop.op)) if const_adj else None
+        ok = (not const_adj) or (need == 'pos' and pos and not neg) or (need == 'neg' and neg and not pos)
+        out.append((call, ok, {'stop': ast.unparse(stop), 'step': step_txt, 'guards': guards,
+                               'step_sign_context': 'neg' if neg else 'pos' if pos else 'unknown'}))
+    return out
+
+
 def run(ctx):
     m = ctx.model
     mod = m.module_by_path(FILE)
@@ -44,7 +64,7 @@ def run(ctx):
         lr = [p for p in params if 'range' in p.lower()]
         if not lr:
             continue
-        for call, guards in X.nodes_with_guards(fn.node, lambda x: isinstance(x, ast.Call) and isinstance(x.func, ast.Name) and x.func.id == 'range'):
+        for call, guards in X.nodes_with_guards(fn.node, lambda x: isinstance(x, ast.Call) and isinstance(x.func, ast.Name) and x.func.id == 'range', early=True):
             if not any(p in ast.unparse(call) for p in lr):
                 continue
             n += 1
@@ -55,8 +75,12 @@ def run(ctx):
                 const_adj = isinstance(stop, ast.BinOp) and isinstance(stop.op, (ast.Add, ast.Sub)) and \
                     isinstance(stop.right, ast.Constant)
                 step_txt = ast.unparse(step)
-                sign_guard = any(('< 0' in g or '> 0' in g or 'sign' in g) and ('step' in g) for g in guards)
-                facts = {'stop': ast.unparse(stop), 'step': step_txt, 'guards': guards}
+                # sign context of the step established by the guards of this construction
+                neg = any(g.replace(' ', '') in (f'{step_txt}<0', f'not({step_txt}>=0)', f'not({step_txt}>0)') for g in guards)
+                pos = any(g.replace(' ', '') in (f'{step_txt}>0', f'{step_txt}>=0', f'not({step_txt}<0)') for g in guards)
+                need = {ast.Add: 'pos', ast.Sub: 'neg'}.get(type(stop.op)) if const_adj else None
+                sign_guard = (need == 'pos' and pos and not neg) or (need == 'neg' and neg and not pos)
+                facts = {'stop': ast.unparse(stop), 'step': step_txt, 'guards': guards, 'step_sign_context': 'neg' if neg else 'pos' if pos else 'unknown'}
                 if const_adj and not sign_guard:
                     ctx.violation('R1', f'{fn.name}:range-stop-adjustment', where,
                                   f'`{ast.unparse(call)}`: the inclusive upper bound is turned into Python\'s exclusive bound by a '
@@ -87,10 +111,13 @@ def run(ctx):
 
 
 MUTANTS = [
-    Mutant('repair-sign', FILE,
-           "    return range(LEM(loop_range.start), floor(LEM(loop_range.stop))+1, LEM(loop_range.step))",
-           "    step = LEM(loop_range.step)\n    if step < 0:\n        return range(LEM(loop_range.start), floor(LEM(loop_range.stop))-1, step)\n    return range(LEM(loop_range.start), floor(LEM(loop_range.stop))+1, step)",
-           expect=None, quick=True),
+    Mutant('descending-branch-removed', FILE,
+           "    if step < 0:\n        # Descending loop: the (inclusive) bound is the smallest value\n        return range(LEM(loop_range.start), ceil(LEM(loop_range.stop))-1, step)\n",
+           "", expect=('R1', 'range-stop-adjustment'), quick=True),
+    Mutant('descending-branch-wrong-adjustment', FILE, "ceil(LEM(loop_range.stop))-1, step)", "ceil(LEM(loop_range.stop))+1, step)", expect=('R1', 'range-stop-adjustment')),
+    Mutant('neutral-else-form', FILE,
+           "        return range(LEM(loop_range.start), ceil(LEM(loop_range.stop))-1, step)\n    return range(LEM(loop_range.start), floor(LEM(loop_range.stop))+1, step)",
+           "        return range(LEM(loop_range.start), ceil(LEM(loop_range.stop))-1, step)\n    else:\n        return range(LEM(loop_range.start), floor(LEM(loop_range.stop))+1, step)", expect=None),
     Mutant('unit-range-ignores-step', FILE, "    if loop_range.step is None:\n        return range(LEM(loop_range.start), floor(LEM(loop_range.stop))+1)\n",
            "    if True:\n        return range(LEM(loop_range.start), floor(LEM(loop_range.stop))+1)\n", expect=('R2', 'range-without-step')),
 ]
